@@ -679,12 +679,12 @@ def expected_converted(klass, ur, internal, ctxname):
     return None
 
 
-def run_call_case(env, spec, out):
+def run_call_case(env, spec, out, fobj=None):
     """spec: dict(expr, klass, args, kwargs, ur, internal, ctx, strict, optmode, fault=None)
        appends correspondence cases to out['cases'] and failures to out['failures']."""
     from malt.impl import api, conversion
     ns = env.namespace()
-    f = eval(spec['expr'], ns)
+    f = fobj if fobj is not None else eval(spec['expr'], ns)
     f0 = eval(spec['expr'], ns)      # a second, equal object for the direct call (receivers may be stateful)
     args = fix_args(env, spec['args'])
     kwargs = spec['kwargs']
@@ -759,7 +759,8 @@ def run_call_case(env, spec, out):
         exp = expected_converted(klass, spec['ur'], spec['internal'], spec['ctx'])
         if (stage is not None and hits) or spec.get('after_fallback'):
             exp = False      # remembered as not-to-convert
-        if exp is True and fired == 0 and want[0] == 'ok' and d['in_cache'] is False:
+        # in a history the verdict must be the policy's whatever was remembered for OTHER options
+        if exp is True and fired == 0 and want[0] == 'ok' and (d['in_cache'] is False or 'history' in spec):
             fails.append(('policy: target should have been converted (operators never fired in the callee)', None))
         if exp is False and fired > 0:
             fails.append(('policy: target must not be converted but %d conditional operator(s) fired in converted code' % fired, None))
@@ -922,6 +923,63 @@ def _check(run, tmp):
             run.nontriv(('seq', expr, repr(first_cfg)))
         finally:
             env.close()
+    # ---------------------------------------------------------------- histories: the decision for (f, options) is the
+    # policy's decision whatever requests came before on the SAME target object
+    hist_targets = [('A.plain', 'allow', ((1,), None)), ('A.K(3).meth', 'allow', ((2,), {'y': 5})), ('A.K(3)', 'allow', ((1,), {})),
+                    ('U.Case().helper', 'allow', ((1,), None)), ('U.plain', 'conv', ((1,), {'y': 5})),
+                    ('U.K(3).meth', 'conv', ((1,), None)), ('U.lam', 'conv', ((3,), None)),
+                    ('api.do_not_convert(U.plain)', 'never', ((1,), None)), ('U.cached', 'never', ((1,), None)),
+                    ('functools.partial(A.plain, 1)', 'allow', ((), {'y': 5}))]
+    opt_points = [(False, True), (True, True), (False, False), (True, False)]      # (user_requested, recursive)
+    seqs = []
+    for a in opt_points:
+        for b in opt_points:
+            if a != b and sum(x != y for x, y in zip(a, b)) == 1:
+                seqs.append([a, b])
+    seqs += [[(False, True), (False, False), (True, True)], [(False, False), (False, True), (True, True)],
+             [(True, False), (False, True), (True, True)], [(False, True), (True, True), (False, True)]]
+    for (expr, klass, (hargs, hkw)) in hist_targets:
+        chosen = seqs if thorough else [seqs[i] for i in range(len(seqs)) if (i + run.seed) % 2 == 0 or i < 2 or i >= 8]
+        for seq in chosen:
+            env = Env(tmp)
+            try:
+                fobj = eval(expr, env.namespace())
+                hist = []
+                for (ur, internal) in seq:
+                    spec = dict(ur=ur, internal=internal, ctx='default', strict=False, optmode='given', expr=expr,
+                                klass=klass, args=hargs, kwargs=hkw, history=list(hist))
+                    try:
+                        run_call_case(env, spec, out, fobj=fobj)
+                    except Exception:   # noqa
+                        import traceback
+                        out['failures'].append(('harness error: %s' % traceback.format_exc()[-600:], None, spec))
+                    hist.append(dict(ur=ur, internal=internal))
+                    run.count()
+                run.nontriv(('history', expr, repr(seq)))
+            finally:
+                env.close()
+    # ---------------------------------------------------------------- the allow-list cache is keyed by option EQUALITY over all
+    # attributes: a verdict stored for o1 is found for o2 iff o1 and o2 agree on every attribute
+    from malt.core import converter as _conv
+    from malt.impl import conversion as _cv
+    env = Env(tmp)
+    try:
+        feats = [None, _conv.Feature.LISTS]
+        grid = [(r, u, i, ft) for r in (False, True) for u in (False, True) for i in (False, True) for ft in feats]
+        mk = lambda g: _conv.ConversionOptions(recursive=g[0], user_requested=g[1], internal_convert_user_code=g[2], optional_features=g[3])
+        for g1 in grid:
+            fn = env.U.closure_maker(len(grid))      # a fresh function object per stored verdict
+            _cv.cache_allowlisted(fn, mk(g1))
+            for g2 in grid:
+                hit = _cv.is_in_allowlist_cache(fn, mk(g2))
+                run.count()
+                if hit != (g1 == g2):
+                    out['failures'].append((
+                        'allow-list cache: a verdict stored under options %r is %s under options %r (attributes: recursive, '
+                        'user_requested, internal_convert_user_code, optional_features)' % (g1, 'found' if hit else 'NOT found', g2),
+                        None, dict(expr='U.closure_maker(16)', stored_under=repr(g1), looked_up_under=repr(g2), cache_key_probe=True)))
+    finally:
+        env.close()
     # ---------------------------------------------------------------- the same hashable object with a raising __eq__, twice
     env = Env(tmp)
     try:
@@ -1420,7 +1478,7 @@ def replay(path):
     doc = json.load(open(path))
     print(json.dumps(doc, indent=1)[:3000])
     spec = doc.get('replay', {}).get('case')
-    if not isinstance(spec, dict) or 'expr' not in spec or spec.get('e2e'):
+    if not isinstance(spec, dict) or 'expr' not in spec or 'args' not in spec or spec.get('e2e'):
         return 0
     tmp = vlib.ensure_dir(os.path.join(vlib.BUILD, 'tmp', 'c13-replay-%d' % os.getpid()))
     os.environ['TMPDIR'] = tmp
@@ -1432,7 +1490,13 @@ def replay(path):
         spec['args'] = tuple(tuple(a) if isinstance(a, list) else a for a in spec['args'])
         if spec.get('fault'):
             spec['fault'] = tuple(spec['fault'])
-        d, ev, got, want = run_call_case(env, spec, out)
+        fobj = None
+        if spec.get('history') is not None:
+            fobj = eval(spec['expr'], env.namespace())
+            for h in spec['history']:
+                print('history step       :', h)
+                run_call_case(env, dict(spec, history=[], **h), {'cases': [], 'failures': []}, fobj=fobj)
+        d, ev, got, want = run_call_case(env, spec, out, fobj=fobj)
         print('direct call        :', want)
         print('through the wrapper:', got)
         print('events             :', [e[0] for e in ev])
